@@ -49,6 +49,9 @@ type Contract struct {
 	// Defines: clauses naming the result by uninterpreted spec functions
 	// (assumed at call sites, not obliged in the body)
 	Defines []*Clause
+	// OnPanic: post-conditions of the exits by panic (functions whose deferred
+	// calls use recover)
+	OnPanic []*Clause
 	// MayPanic: function may panic under its precondition without it being an obligation
 	// (used for functions whose panics are their documented refusal).
 	EnsuresPanic bool
@@ -132,7 +135,7 @@ func NewContractSet() *ContractSet {
 var clauseKw = map[string]bool{"requires": true, "ensures": true, "ensures!": true, "modifies": true, "panics_if": true,
 	"loop": true, "inline": true, "assumed": true, "mode": true, "arith": true, "func": true, "spec": true, "type": true,
 	"lemma": true, "lemma!": true, "pragma": true, "property": true, "package": true, "ghost": true, "replay": true,
-	"atomic": true, "guarantee": true, "defines": true,
+	"atomic": true, "guarantee": true, "defines": true, "on_panic": true,
 	"ensures_panic": true, "nonil": true, "pure": true, "witness": true, "end": true, "uses": true, "nosafety": true, "trustframe": true, "maypanic": true, "funczero": true, "purecalls": true}
 
 var nameRe = regexp.MustCompile(`^([A-Za-z_][A-Za-z0-9_.]*):\s+`)
@@ -342,6 +345,22 @@ func (cs *ContractSet) LoadFile(path, pkgPath string) {
 			if cur != nil {
 				cur.EnsuresPanic = true
 			}
+		case "on_panic":
+			// on_panic name: P - holds whenever a panic leaves the function (after its
+			// deferred calls ran); panicvalue() is the value it leaves with
+			if cur == nil {
+				bad(fmt.Errorf("on_panic outside func"))
+				continue
+			}
+			cl, err := parseClause(ll.rest, ll.line, true)
+			if err != nil {
+				bad(err)
+				continue
+			}
+			if cl.Name == "" {
+				cl.Name = strconv.Itoa(len(cur.OnPanic))
+			}
+			cur.OnPanic = append(cur.OnPanic, cl)
 		case "defines":
 			// defines <expr over results and uninterpreted spec functions>: names the
 			// result of a deterministic function so that other contracts can refer
